@@ -53,7 +53,16 @@ def step (_ : Unit) : List String → Unit × String
         -- integer-valued doubles are printed exactly by glibc: first format round-trips, no carry
         match numberToString x (fun _ => x.isInt) (fun _ => false) with
         | .ok (.integer n) => ((), s!"int {n}")
-        | .ok (.printf n) => ((), s!"printf {n}")
+        | .ok (.printf n) =>
+          if x.isInt then ((), s!"printf {n}")
+          else
+            -- a fraction: either the "%.Nf" loop (at most n bytes) or, below 1, the expansion of "%.17e"
+            let eb := b / 2 ^ 52 % 2048
+            let f := b % 2 ^ 52
+            let m := if eb = 0 then f else f + 2 ^ 52
+            let sh := 1075 - (if eb = 0 then 1 else eb)
+            let small := if x.ip = 0 then smallNumberBytes x.neg (decExpOf m sh 400 0) else 0
+            ((), s!"frac {max n small}")
         | .memErr => ((), s!"mem {sprintfBytes x (printfPrecisions.headD 0) false}")
         | .outOfFuel => ((), "fuel")
     | none => ((), "bad")
